@@ -244,6 +244,9 @@ inductive Subtable where
   | gpos2_2 (cov : List Nat) (class1 class2 : List (Nat × Nat)) (adjust : List (List PairAdj))
   /-- cursive attachment: coverage (ascending) and entry/exit anchors `(x1, y1, x2, y2)` -/
   | gpos3_1 (cov : List Nat) (recs : List (Int × Int × Int × Int))
+  /-- mark-to-base: mark records `(glyph, class, x, y)` and base records `(glyph, anchors)`, both in
+  ascending glyph order -/
+  | gpos4_1 (marks : List (Nat × Nat × Int × Int)) (bases : List (Nat × List (Int × Int)))
 deriving Repr, DecidableEq
 
 structure Lookup where
@@ -590,6 +593,90 @@ def readGpos3 (f : Font) (fuel : Nat) : PM Lookup := do
   let subs ← subtablesLoop (gpos3Sub f fuel) fuel []
   pure { typ := 3, flags := flags, subtables := subs }
 
+/-! ### GPOS 4 (mark-to-base attachment) -/
+
+def kwMark : List Nat := [109, 97, 114, 107]
+def kwBase : List Nat := [98, 97, 115, 101]
+#guard kwMark == lit "mark" && kwBase == lit "base"
+
+/-- `readInteger` then the range check of `readUint16` -/
+def readUint16 : PM Nat := do
+  let t ← readItem
+  if t.typ != tInteger then fatal "expected integer"
+  else
+    match atoi t.bytes with
+    | none => fatal "invalid integer"
+    | some v =>
+      if v > 9223372036854775807 || v < -9223372036854775808 then fatal "invalid integer"
+      else if v < 0 || v ≥ 65536 then fatal "uint16 out of range"
+      else pure v.toNat
+
+/-- `len(gs) > 0 && gs[len(gs)-1] >= gid` -/
+def lastGe (gs : List Nat) (gid : Nat) : Bool :=
+  match gs.getLast? with
+  | some l => decide (l ≥ gid)
+  | none => false
+
+/-- records introduced by a keyword, each optionally followed by `;` and a line break; `one`
+reads the record after the keyword, given the records so far -/
+def recLoop {α : Type} (kw : List Nat) (one : List α → PM α) : Nat → List α → PM (List α)
+  | 0, _ => throw { line := 0, cls := errFuel }
+  | n + 1, acc => do
+    if !(← optionalIdentifier kw) then pure acc
+    else
+      let item ← one acc
+      let _ ← optional [tSemicolon]
+      let _ ← optional [tEOL]
+      recLoop kw one n (acc ++ [item])
+
+/-- `glyph: class@x,y` of a mark record -/
+def markOne (f : Font) (fuel : Nat) (acc : List (Nat × Nat × Int × Int)) : PM (Nat × Nat × Int × Int) := do
+  let gid ← readGlyph f fuel
+  if lastGe (acc.map (·.1)) gid then fatal "mark glyphs not given in ascending order"
+  else
+    let _ ← optional [tColon]
+    let cls ← readUint16
+    let _ ← required tAt
+    let x ← readInt16
+    let _ ← required tComma
+    let y ← readInt16
+    pure (gid, cls, x, y)
+
+/-- the anchors of one base record: `@x,y` per mark class, commas optional -/
+def anchorsLoop : Nat → Nat → List (Int × Int) → PM (List (Int × Int))
+  | 0, _, acc => pure acc
+  | k + 1, i, acc => do
+    let _ ← (if i == 0 then pure false else optional [tComma])
+    let _ ← required tAt
+    let x ← readInt16
+    let _ ← required tComma
+    let y ← readInt16
+    anchorsLoop k (i + 1) (acc ++ [(x, y)])
+
+/-- `glyph: @x,y @x,y` of a base record -/
+def baseOne (f : Font) (fuel k : Nat) (acc : List (Nat × List (Int × Int))) : PM (Nat × List (Int × Int)) := do
+  let gid ← readGlyph f fuel
+  if lastGe (acc.map (·.1)) gid then fatal "base glyphs not given in ascending order"
+  else
+    let _ ← optional [tColon]
+    let anchors ← anchorsLoop k 0 []
+    pure (gid, anchors)
+
+/-- one subtable of `readGpos4`: the mark classes seen must be 0 … k-1 -/
+def gpos4Sub (f : Font) (fuel : Nat) : PM Subtable := do
+  let marks ← recLoop kwMark (markOne f fuel) fuel []
+  let classes := marks.map (·.2.1)
+  let k := classes.eraseDups.length
+  if !((List.range k).all fun c => classes.contains c) then fatal "missing mark class"
+  else
+    let bases ← recLoop kwBase (baseOne f fuel k) fuel []
+    pure (.gpos4_1 marks bases)
+
+def readGpos4 (f : Font) (fuel : Nat) : PM Lookup := do
+  let flags ← header fuel
+  let subs ← subtablesLoop (gpos4Sub f fuel) fuel []
+  pure { typ := 4, flags := flags, subtables := subs }
+
 /-- outcome of the forms this file does not model: the driver reports `unmodelled` -/
 def unmodelled : String := "model-unmodelled-form"
 
@@ -616,7 +703,9 @@ def parseLoop (f : Font) (fuel : Nat) : Nat → List Lookup → PM (List Lookup)
       let l ← readGpos2 f fuel; parseLoop f fuel n (acc ++ [l])
     else if isIdent item (kwGPOS 3) then do
       let l ← readGpos3 f fuel; parseLoop f fuel n (acc ++ [l])
-    else if [kwGSUB 5, kwGSUB 6, kwGPOS 4].any
+    else if isIdent item (kwGPOS 4) then do
+      let l ← readGpos4 f fuel; parseLoop f fuel n (acc ++ [l])
+    else if [kwGSUB 5, kwGSUB 6, kwGPOS 7, kwGPOS 8].any
         (isIdent item) then throw { line := 0, cls := unmodelled }
     else fatal "unexpected"
 
